@@ -141,8 +141,8 @@ def main(tier, only=None):
         payload = os.path.join(sc, 'payload'); open(payload, 'wb').write(bytes((i * 5 + 1) & 0xff for i in range(5000)))
         def dbg(*cmds):
             return [T['debugfs'], '-w', '-R', cmds[0], '{img}'] if len(cmds) == 1 else None
-        bases = ['ext4csum', 'inline', 'eainode', 'quota', 'metabg', 'bs4k', 'bigalloc', 'mmp']
-        for name in bases if not quick else ['ext4csum', 'inline', 'metabg', 'bigalloc']:
+        bases = ['ext4csum', 'inline', 'eainode', 'quota', 'metabg', 'bs4k', 'bigalloc', 'mmp', 'desc128', 'deepext']
+        for name in bases if not quick else ['ext4csum', 'inline', 'metabg', 'bigalloc', 'desc128']:
             D = lambda c: [T['debugfs'], '-w', '-R', c, '{img}']
             ops = [('mkdir', [D('mkdir /newdir')]), ('write', [D('write %s /newfile' % payload)]), ('symlink', [D('symlink /sl /one')]), ('long symlink', [D('symlink /sl2 ' + 'y' * 200)]),
                    ('link+unlink', [D('ln /one /one2'), D('unlink /hard')]), ('rm', [D('rm /f12')]), ('rmdir', [D('rmdir /lin')] if False else [D('rm /lin/n00')]), ('mknod', [D('mknod /pipe p')]),
@@ -166,7 +166,10 @@ def main(tier, only=None):
                 jobs.append((name, label, cmds))
         for i, opts in enumerate((['-t', 'ext4', '-O', 'metadata_csum,64bit'], ['-t', 'ext4', '-O', 'metadata_csum,^64bit', '-g', '256'], ['-t', 'ext4', '-O', 'metadata_csum,meta_bg,^resize_inode', '-b', '2048'],
                                   ['-t', 'ext4', '-O', 'metadata_csum,bigalloc', '-C', '4096'], ['-t', 'ext4', '-O', 'metadata_csum,inline_data,quota,project', '-I', '512'],
-                                  ['-t', 'ext4', '-O', 'metadata_csum,mmp,metadata_csum_seed,orphan_file'], ['-t', 'ext4', '-O', '^metadata_csum,uninit_bg', '-g', '256'])):
+                                  ['-t', 'ext4', '-O', 'metadata_csum,mmp,metadata_csum_seed,orphan_file'], ['-t', 'ext4', '-O', '^metadata_csum,uninit_bg', '-g', '256'],
+                                  ['-t', 'ext4', '-O', 'metadata_csum,64bit', '-E', 'desc_size=128', '-g', '256'], ['-t', 'ext4', '-O', '^metadata_csum,uninit_bg,64bit', '-E', 'desc_size=128', '-g', '256'],
+                                  ['-t', 'ext4', '-O', 'metadata_csum,64bit', '-E', 'desc_size=256', '-g', '256'], ['-t', 'ext4', '-O', 'metadata_csum,^64bit', '-I', '128', '-g', '256'],
+                                  ['-t', 'ext4', '-O', 'metadata_csum,64bit', '-I', '1024', '-b', '4096'])):
             jobs.append((None, 'mke2fs ' + ' '.join(opts), [[T['mke2fs'], '-q', '-F'] + opts + ['{img}', '4096']]))
         for x in range(4, 512 - 128 + 1, 4 if not quick else 28):
             jobs.append((None, 'inode layout I=512 extra_isize=%d' % x, [[T['mke2fs'], '-q', '-F', '-t', 'ext4', '-O', 'metadata_csum', '-I', '512', '{img}', '4096'],
@@ -201,12 +204,14 @@ def main(tier, only=None):
     # ------------------------------------------------------------------ (b)
     if 'b' in parts:
         PROBE = cc_probe()
-        bases = (['ext4csum'] if quick else ['ext4csum', 'inline', 'eainode', 'quota', 'metabg', 'mmp', 'bs4k', 'bigalloc'])
+        bases = (['ext4csum', 'desc128'] if quick else ['ext4csum', 'inline', 'eainode', 'quota', 'metabg', 'mmp', 'bs4k', 'bigalloc', 'desc128', 'deepext'])
         jobs = []
         cover = {}
         for name in bases:
             img = Image(fsweep.base_data(name))
             objs = layout.csum_objects(img, max_dir_blocks=2 if quick else 4, max_inodes=None)
+            if name == 'desc128' and quick: objs = [o for o in objs if o[0] == 'gd']          # quick: only what this base adds (descriptor bytes 64..127)
+            if name == 'deepext': objs = [o for o in objs if o[0].startswith('ext')]
             kinds_seen = {}
             for kind, oid, ranges in objs:
                 kinds_seen[kind] = kinds_seen.get(kind, 0) + 1
